@@ -184,7 +184,7 @@ def receiver(R, ctx):
                     n += 1
                     R.ob(rid, "process_function_call|%s" % v, v in free, ctx.where(fn, m.get("ln")),
                          "receiver variant Expression::%s is duplicated; effect-free: %s" % (v, v in free))
-    R.require(rid, "floor", n >= 5, ctx.where(fn), "%d duplicated receiver variants" % n)
+    R.require(rid, "floor", n >= 4, ctx.where(fn), "%d duplicated receiver variants" % n)
     # the copy inserted as first argument is in LAST-argument position when the call had no argument: a multi-valued
     # receiver (`...`, a call) must keep its parentheses there.  Lua's own table of multi-valued expressions is the reference.
     MULTI = {"Call", "VariableArguments"}
